@@ -1350,6 +1350,158 @@ def check_C07(tier, seed):
     return out
 
 
+# ======================================================================================= C12
+def check_C12(tier, seed):
+    import rx as rxl, lx as lxl
+    out = Outcome()
+    rng = random.Random(seed)
+    cat = {g.name: g for g in catalogue()}
+    st_total = tr_total = 0
+    runs = []
+    # ---- (a) automaton size per pattern: nested repetitions, large counts
+    pats = ['a{1}', 'a{2}', 'a{7}', 'a{40}', '(ab){3}', '(a|b){5}', '(a{2}){3}', '((ab){2}c){2}', '(a{3}|b{2}){2}', '([a-c]x){4}y', '(a?b){3}', '(a*){2}', '(a+b{2}){2}', 'x{0}', '(ab){0}c',
+            '((a{2}){2}){2}', '(a|b|c){3}', '(a(b(c){2}){2}){2}', 'a{2}b{3}c{4}', '(ab|cd){2}(e|f){3}']
+    for n in (1, 2, 3):
+        pats += [rxl.render(a) for a in rxl.enum_asts(n, atoms=['a', '[ab]'], unary=['*', '{2}', '{3}', '?'])]
+    if tier != 'quick':
+        pats += [rxl.render(a) for a in rxl.enum_asts(4, atoms=['a', '[ab]'], unary=['*', '{2}', '{3}', '?'])]
+    for i in range(40 if tier == 'quick' else 600):
+        pats.append(rxl.random_pattern(rng, depth=rng.choice([2, 3, 4])))
+    pats = list(dict.fromkeys(pats))
+    jobs = [('p%d' % i, list(p.encode('latin-1')), []) for i, p in enumerate(pats)]
+    recs, crashed, _ = rxl.run_rx(jobs, 'C12rx')
+    items, ref, model, static, st, tr, r1 = rx_items_check(recs, 'C12rxtlc', tlc_procs=4 if tier == 'quick' else 8)
+    st_total += st; tr_total += tr; runs += r1
+    nsize = 0
+    for j, r in zip(jobs, recs):
+        if r is None:
+            continue
+        if r['valid'] and not r['built'] and 'cvector' in (r['threw2'] or ''):
+            out.notes.append('pattern needs more than the harness capacity, skipped: %r' % pat_text(j[1]))
+            continue
+        if r['built']:
+            nsize += 1
+            if r['size_pred'] < r['size_used']:
+                out.violations.append({'summary': {'pattern': pat_text(j[1]), 'class': 'automaton larger than the size the analyser reserves', 'predicted': r['size_pred'], 'used': r['size_used']}, 'kind': 'rx', 'pattern': j[1]})
+    for pid, d in static.items():
+        if d['why'][0] in ('size-predicted', 'capacity', 'size-used'):
+            out.violations.append({'summary': {'pattern': pat_text(jobs[int(pid[1:])][1]), 'class': 'size analysis: ' + d['why'][0], 'detail': d['why']}, 'kind': 'rx', 'pattern': jobs[int(pid[1:])][1]})
+    # ---- (b) lexer capacity = sum of the terms' sizes
+    sets = list(lxl.FAMILIES) + lxl.enum_sets(2)[::3 if tier == 'quick' else 1]
+    ljobs = [('l%d' % i, ts, []) for i, ts in enumerate(sets)]
+    lrecs, lcr, _ = lxl.run_lx(ljobs, 'C12lx')
+    litems, lref, lmodel, lstatic, st, tr, r2 = lx_items_check(lrecs, 'C12lxtlc', tlc_procs=4 if tier == 'quick' else 8)
+    st_total += st; tr_total += tr; runs += r2
+    for lid, d in lstatic.items():
+        if d['why'][0] == 'capacity':
+            out.violations.append({'summary': {'terms': lxl.set_text(ljobs[int(lid[1:])][1]), 'class': 'lexer automaton larger than the sum of the term sizes', 'detail': d['why']}, 'kind': 'lx', 'terms': ljobs[int(lid[1:])][1]})
+    # real parsers over term sets: the lexer is built into a table of exactly that capacity (bounds hook)
+    lex_entries = [pipeline.lex_entry('cap%d' % i, ts) for i, ts in enumerate(lxl.FAMILIES[:6 if tier == 'quick' else 17])]
+    # ---- (c) default LR caps, (d) custom limits around the need
+    names = ['expr_strat', 'paren_list', 'closure_memo', 'lr1_not_lalr', 'nullable_prefix'] + ([] if tier == 'quick' else ['first_cycle', 'll_pal', 'two_lists', 'expr_amb', 'unit_chain'])
+    base = [pipeline.gen_entry(cat[n], gid=n + '@deflim') for n in names]
+    all_default = []
+    for g in catalogue():
+        all_default += entries_for(g, hosts=(0, 1, 2), gen=False)
+    res0, work0 = prun.run(base + all_default + lex_entries, 'C12a', design_L=None, do_product=True, do_traces=False, tlc_procs=4 if tier == 'quick' else 8, tlc_workers=2)
+    st_total += res0.states; tr_total += res0.transitions; runs += res0.tlc_runs
+    for gid, d in res0.caps.items():
+        out.violations.append({'summary': {'grammar': gid, 'class': 'capacity: ' + str(d['why'][0]), 'detail': d['why']}, 'kind': 'caps', 'gid': gid})
+    for gid, msg in res0.construct_threw.items():
+        out.violations.append({'summary': {'grammar': gid, 'class': 'construction with DEFAULT limits failed', 'message': msg}, 'kind': 'caps', 'gid': gid})
+    lim_entries, expect = [], {}
+    for e in base:
+        ok = res0.capsok.get(e.gid)
+        if not ok or e.dump is None:
+            continue
+        ns, ni = ok['states'], ok['items']
+        big = max(e.dump['state_cap'], 8)
+        for ds in (-2, -1, 0, 1):
+            le = pipeline.gen_entry(e.g, gid='%s@S%+d' % (e.g.name, ds), limits=(max(1, ns + ds), big))
+            lim_entries.append(le); expect[le.gid] = ('states', ds >= 0, e)
+        for di in (-2, -1, 0, 1):
+            le = pipeline.gen_entry(e.g, gid='%s@I%+d' % (e.g.name, di), limits=(big, max(1, ni + di)))
+            lim_entries.append(le); expect[le.gid] = ('items', di >= 0, e)
+    for le in lim_entries:
+        pipeline.add_jobs(le, all_inputs(le.g, 3, 60), verbose=False)
+    res1, work1 = prun.run(lim_entries, 'C12b', design_L=None, do_product=True, do_traces=True, tlc_procs=4 if tier == 'quick' else 8, tlc_workers=2)
+    st_total += res1.states; tr_total += res1.transitions; runs += res1.tlc_runs
+    nlim = 0
+    for le in lim_entries:
+        which, should_work, be = expect[le.gid]
+        nlim += 1
+        threw = res1.construct_threw.get(le.gid)
+        crashed_rc = [rc for g2, rc in res1.crashed if g2 == le.gid]
+        summ = {'grammar': le.gid, 'limits(state_count_cap, max_sit_count_per_state_cap)': list(le.limits), 'needed': res0.capsok[be.gid], 'limit_varied': which}
+        if should_work:
+            if threw is not None or le.dump is None:
+                out.violations.append({'summary': dict(summ, **{'class': 'sufficient limits rejected', 'message': threw}), 'kind': 'caps', 'gid': le.gid})
+            elif le.dump['table'] != be.dump['table'] or le.dump['states'] != be.dump['states'] or res1.rejects.get(le.gid) or le.gid in res1.disagree:
+                out.violations.append({'summary': dict(summ, **{'class': 'parser built with sufficient custom limits differs from the default-limits parser'}), 'kind': 'caps', 'gid': le.gid})
+        else:
+            if crashed_rc:
+                out.violations.append({'summary': dict(summ, **{'class': 'too small limits: the process died instead of a loud rejection', 'exit': crashed_rc[0]}), 'kind': 'caps', 'gid': le.gid})
+            elif threw is None:
+                out.violations.append({'summary': dict(summ, **{'class': 'too small limits accepted: a parser was produced'}), 'kind': 'caps', 'gid': le.gid})
+            elif 'cvector' in threw:
+                out.violations.append({'summary': dict(summ, **{'class': 'too small limits are not checked by the library: it writes past its own vector (seen by the CTPG_VERIF bounds hook)', 'hook': threw}), 'kind': 'caps', 'gid': le.gid})
+    # ---- (e) fixed stacks of cstring_buffer parses: N + EmptyRules + 1
+    k2 = known_match('C12', 'stack-capacity')
+    snames = ['nullable_mid', 'nested_nullable', 'nullable_prefix', 'deep_unit_nullable', 'left_rec_empty', 'opt_tail', 'dyck', 'right_rec_empty', 'paren', 'expr_strat']
+    sent = []
+    for n in snames:
+        if n in cat:
+            try:
+                sent.append(pipeline.host_entry(cat[n], 0, gid=n + '@cs'))
+            except ValueError:
+                pass
+    extra = gram.Grammar('k2_chain', ['R', 'A'], ['x'], 'R', [('R', ['A', 'x', 'R'], 0), ('R', [], 0), ('A', [], 0)])
+    sent.append(pipeline.host_entry(extra, 0, gid='k2_chain@cs'))
+    Ls = 5 if tier == 'quick' else 7
+    for e in sent:
+        pipeline.add_jobs(e, [s for s in all_inputs(e.g, Ls, 400 if tier == 'quick' else 3000) if len(s) <= 8], buf=2, verbose=False)
+    hostc = vlib.build_binary('hostc', 'host.cpp', ('-DHOST_VARIANT=0', '-DVH_CSTR=10'))
+    crecs, crc, cerr = pipeline.run_host_binary(hostc, sent, 'C12cstr')
+    if crc != 0:
+        out.violations.append({'summary': {'class': 'cstring_buffer parses: process died', 'exit': crc, 'stderr': cerr[-300:]}, 'kind': 'caps', 'gid': 'cstr'})
+    # the specification's own prediction of the stack depth each input needs (TLC)
+    given = [(r['g'], tuple(r['bytes']), True, True) for r in crecs]
+    verd, rv = prun.spec_verdicts(sent, given, 'C12v', tlc_workers=8) if given else ({}, None)
+    if rv:
+        st_total += rv.distinct; tr_total += rv.generated
+    nstack = 0
+    k2_cases = []
+    by_gid = {e.gid: e for e in sent}
+    for r in crecs:
+        nstack += 1
+        e = by_gid[r['g']]
+        v = verd.get((r['g'], tuple(r['bytes']), True, True))
+        nempty = sum(1 for sl in e.tla['rules'] if not sl['r'])         # the host's EmptyRulesCount counts every arity-0 slot
+        cap = len(r['bytes']) + 1 + nempty + 1
+        oob = [ev for ev in r['events'] if ev[0] == 'oob']
+        if oob or r['threw']:
+            if v and v['maxstack'] > cap and all('push_back' in ev[1] or 'emplace_back' in ev[1] for ev in oob) and k2:
+                k2_cases.append((e.g.name, bytes(r['bytes']).decode('latin-1'), v['maxstack'], cap))
+            else:
+                out.violations.append({'summary': {'grammar': r['g'], 'input': bytes(r['bytes']).decode('latin-1'), 'class': 'cstring_buffer parse: out-of-range access in a fixed vector',
+                                                   'events': oob[:2], 'threw': r['threw'], 'spec_needs_depth': v and v['maxstack'], 'capacity': cap}, 'kind': 'caps', 'gid': r['g']})
+        elif v and (v['status'] == 'acc') != r['ok']:
+            out.violations.append({'summary': {'grammar': r['g'], 'input': bytes(r['bytes']).decode('latin-1'), 'class': 'cstring_buffer parse: verdict differs from the specification'}, 'kind': 'caps', 'gid': r['g']})
+    if k2_cases:
+        g0, i0, need, cap = k2_cases[0]
+        out.known.append('K2 fixed stacks of cstring_buffer parses (N + EmptyRules + 1) overflow: %d inputs, e.g. %s on %r needs depth %d, capacity %d' % (len(k2_cases), g0, i0, need, cap))
+    out.violations = out.violations[:12]
+    out.coverage = {'states': int(st_total), 'transitions': int(max(tr_total, 1)), 'traces_validated_against_impl': int(res1.traces),
+                    'patterns_size_checked': nsize, 'term_sets_capacity_checked': len(litems), 'parsers_default_caps_checked': len(res0.capsok),
+                    'custom_limit_variants': nlim, 'cstring_buffer_parses': nstack, 'k2_attributed': len(k2_cases), 'tlc_runs': runs,
+                    'samples': [{'pattern': pat_text(jobs[0][1]), 'predicted': recs[0]['size_pred'], 'used': recs[0]['size_used']},
+                                {'limits_variant': lim_entries[0].gid, 'limits': list(lim_entries[0].limits)} if lim_entries else {}],
+                    'exhaustive': False}
+    out.assumptions = ['TLC + JSON reader', 'need = specification\'s canonical LR(1) collection (states, items per state); default cap formula transcribed in ProductTable!DefaultCap',
+                       'library vectors observed by the CTPG_VERIF bounds hook', 'K2 attribution: overflow only in the cursor/value stack push, and the specification predicts a depth above the capacity for that input']
+    return out
+
+
 # ======================================================================================= replay
 def replay(pid, path):
     v = json.load(open(path))
@@ -1362,6 +1514,10 @@ def replay(pid, path):
         print('library accepts:', recs[0] and recs[0]['valid'], ' ref mismatches:', len(ref.get('p0', [])), ' model mismatches:', len(model.get('p0', [])), ' syntax:', [d['why'] for d in probs])
         if crashed or ref or model or static or probs:
             out.violations.append(v)
+        return out
+    if v.get('kind') == 'caps':
+        print('capacity witnesses are configurations of the check itself: re-run ./check C12')
+        out.violations.append(v)
         return out
     if v.get('kind') == 'ct':
         print('C07 witnesses are translation units: re-run ./check C07 (source kept at %s)' % v.get('source'))
